@@ -41,7 +41,7 @@ fn first_variant<E: core::fmt::Debug>(e: &E) -> String {
 
 fn compress(input: &[u8], fastest: bool, chunks: &[u32], drain: &SinkScript) -> Vec<u8> {
     let mut c: FrameCompressor<SimReader<'_>, SimSink, MatchGeneratorDriver> = FrameCompressor::new(if fastest { CompressionLevel::Fastest } else { CompressionLevel::Uncompressed });
-    c.set_source(SimReader::new(input, &SourceScript { chunks: chunks.to_vec(), eof_at: None, faults: vec![] }));
+    c.set_source(SimReader::new(input, &SourceScript { chunks: chunks.to_vec(), eof_at: None, faults: vec![], pauses: vec![] }));
     c.set_drain(SimSink::new(drain));
     c.compress();
     if let Some(r) = c.source() {
@@ -66,7 +66,7 @@ fn decode(frame: &[u8], r: &mut Rng, d: &mut Digest) {
     for _ in 0..r.urange(0, 3) {
         faults.push((r.usize_below(frame.len().max(1)) as u64, FaultKind::Interrupted));
     }
-    let script = SourceScript { chunks, eof_at: if r.chance(1, 10) { Some(r.usize_below(frame.len().max(1)) as u64) } else { None }, faults };
+    let script = SourceScript { chunks, eof_at: if r.chance(1, 10) { Some(r.usize_below(frame.len().max(1)) as u64) } else { None }, faults, pauses: vec![] };
     let mut out: Vec<u8> = Vec::new();
     if r.chance(1, 3) {
         // streaming front end
@@ -250,7 +250,7 @@ fn main() {
 /// legitimately differ between hash and no-hash builds, whose frames differ by the trailer)
 fn decode_stream_only(frame: &[u8], r: &mut Rng, d: &mut Digest) {
     let chunks: Vec<u32> = (0..r.urange(0, 4)).map(|_| *r.pick(&[1u32, 3, 64, 5000])).collect();
-    let rd = SimReader::new(frame, &SourceScript { chunks, eof_at: None, faults: vec![(r.usize_below(frame.len().max(1)) as u64, FaultKind::Interrupted)] });
+    let rd = SimReader::new(frame, &SourceScript { chunks, eof_at: None, faults: vec![(r.usize_below(frame.len().max(1)) as u64, FaultKind::Interrupted)], pauses: vec![] });
     let mut out = Vec::new();
     match StreamingDecoder::new(rd) {
         Ok(mut sd) => {
